@@ -171,7 +171,9 @@ pub struct Ctx<'a> {
     /// C08(e): (board, side, step) -> first state seen with it
     pub rep_of_bss: FxMap<(Raw, bool, u8), GameState>,
     /// C04 depends on (board, side) only: turn-start positions already judged in this root / configuration
-    pub c04_seen: FxSet<(Raw, bool)>,
+    /// (turn-start board, side, how many times this position has stood at a turn start in this game so far, capped at 3):
+    /// the result must be the same at every occurrence, so each occurrence count is evaluated once
+    pub c04_seen: FxSet<(Raw, bool, u8)>,
 }
 
 impl<'a> Ctx<'a> {
@@ -437,7 +439,21 @@ fn c10_views_inner(ctx: &mut Sink, gs: &GameState, after_action: bool) {
     });
     if fresh {
         ctx.stats.add("c10_diagrams_read", 1);
-        let text = gs.to_string();
+        // the diagram as printed plainly, and as printed through ONE further format spec (rotating with the board): width,
+        // fill, alignment, sign and alternate flags of the caller apply to the text as a whole at most (all widths used are
+        // shorter than the text), never to its cells - the grid must be the same
+        let plain = gs.to_string();
+        let flagged = match (r[1] ^ (r[1] >> 17) ^ r[0]) % 7 {
+            0 => format!("{:4}", gs),
+            1 => format!("{:>2}", gs),
+            2 => format!("{:<40}", gs),
+            3 => format!("{:*^9}", gs),
+            4 => format!("{:08}", gs),
+            5 => format!("{:+}", gs),
+            _ => format!("{:#}", gs),
+        };
+        ctx.stats.add("c10_diagrams_read_through_a_format_spec_with_flags", 1);
+        for text in [plain, flagged] {
         match read_diagram(&text) {
             Err(e) => ctx.fail("C10: printed diagram does not have the documented grid", e, String::new()),
             Ok((_, cells)) => {
@@ -473,6 +489,7 @@ fn c10_views_inner(ctx: &mut Sink, gs: &GameState, after_action: bool) {
                     }
                 }
             }
+        }
         }
     }
 }
@@ -1048,7 +1065,8 @@ fn c08_state(ctx: &mut Ctx, node: &Node, status: PushPullState) {
 /// Oracles for a state at the start of a turn (roots and states reached by a turn-ending action).
 pub fn turn_start_oracles(ctx: &mut Ctx, node: &Node, via: Option<&Action>) {
     let gs = &node.gs;
-    if ctx.on(C04) && ctx.c04_seen.insert((node.snaps[0], node.gold)) {
+    let occurrences = if ctx.on(C04) { node.hist.iter().filter(|(b, g)| *b == node.snaps[0] && *g == node.gold).count().min(3) as u8 } else { 0 };
+    if ctx.on(C04) && ctx.c04_seen.insert((node.snaps[0], node.gold, occurrences)) {
         ctx.query = "is_terminal";
         let t = gs.is_terminal();
         ctx.query = "";
